@@ -69,6 +69,7 @@
 -/
 import Bcder.Props.C16
 import Bcder.Props.C10
+import Bcder.Props.C11b
 namespace Bcder.Props.C16b
 open Bcder Bcder.Spec Prog
 open Bcder.Props.C02 (St run_getLimit run_need run_limitedExhausted suffix_lemma view_le_limit view_len)
@@ -423,8 +424,8 @@ theorem ber_round_absent (c : Cons) (g : G0) (hf : g.frames = []) (inner : Nat) 
 theorem berLoop_def : ∀ (f : Nat) (m : Mode) (g : G0) (l inner N : Nat) (ts : List Tree), g.frames = [] →
     g.limit = some l → l ≤ g.data.length → parseAll (toM m) f g.view = some ts →
     (∀ t ∈ ts, hdrs t ≤ inner) → 1 ≤ inner → ts.length < N →
-    runG0 (OS.berLoop ⟨.definite, m⟩ inner N) g =
-      if allOSL ts = true then .ok (⟨.definite, m⟩, ⟨g.data.drop l, some 0, []⟩) else .error .content := by
+    runG0 (OS.berLoop ⟨.definite, m, 0⟩ inner N) g =
+      if allOSL ts = true then .ok (⟨.definite, m, 0⟩, ⟨g.data.drop l, some 0, []⟩) else .error .content := by
   intro f
   induction f with
   | zero => intro m g l inner N ts _ _ _ hp; simp [parseAll] at hp
@@ -438,7 +439,7 @@ theorem berLoop_def : ∀ (f : Nat) (m : Mode) (g : G0) (l inner N : Nat) (ts : 
       subst hl0
       simp only [hemp, if_true, Option.some.injEq] at hp
       subst hp
-      have hab : absentF ⟨.definite, m⟩ g = some (⟨.definite, m⟩, g) := by
+      have hab : absentF ⟨.definite, m, 0⟩ g = some (⟨.definite, m, 0⟩, g) := by
         unfold absentF; simp [hl]
       rw [ber_round_absent _ g hf inner hI1 _ _ hab]
       have : g = ⟨g.data.drop 0, some 0, []⟩ := by
@@ -461,7 +462,7 @@ theorem berLoop_def : ∀ (f : Nat) (m : Mode) (g : G0) (l inner N : Nat) (ts : 
           obtain ⟨n1, hn1, hr1⟩ := (suffix_lemma (toM m) f).1 _ _ _ hpv
           have hlen : g.view.length - rest1.length = n1 := by
             rw [hr1, List.length_drop]; omega
-          rw [ber_round_value ⟨.definite, m⟩ g hf (by simp) (by simp [hl]) f t rest1 hpv inner (hI t (by simp)), hlen]
+          rw [ber_round_value ⟨.definite, m, 0⟩ g hf (by simp) (by simp [hl]) f t rest1 hpv inner (hI t (by simp)), hlen]
           by_cases ha : allOS t = true
           · simp only [ha, if_true, allOSL, Bool.true_and]
             have hvl := view_le_limit g l hl
@@ -479,16 +480,17 @@ theorem berLoop_def : ∀ (f : Nat) (m : Mode) (g : G0) (l inner N : Nat) (ts : 
     by end-of-contents, the loop consumes the values while they are all-OCTET-STRING, then the
     end-of-contents octets, and stops with state `done` behind them; a value containing a foreign
     tag ends it with a content error. -/
-theorem berLoop_indef : ∀ (f : Nat) (m : Mode) (g : G0) (inner N : Nat) (ts : List Tree) (rest : Bytes), g.frames = [] →
+theorem berLoop_indef : ∀ (f : Nat) (m : Mode) (e : Nat) (g : G0) (inner N : Nat) (ts : List Tree) (rest : Bytes), g.frames = [] →
     parseUntilEoc (toM m) f g.view = some (ts, rest) →
     (∀ t ∈ ts, hdrs t ≤ inner) → 1 ≤ inner → ts.length < N →
-    runG0 (OS.berLoop ⟨.indefinite, m⟩ inner N) g =
-      if allOSL ts = true then .ok (⟨.done, m⟩, g.adv (g.view.length - rest.length)) else .error .content := by
+    runG0 (OS.berLoop ⟨.indefinite, m, e⟩ inner N) g =
+      if allOSL ts = true then .ok (⟨.done, m, C02.eocLen (toM m) f g.view⟩, g.adv (g.view.length - rest.length))
+      else .error .content := by
   intro f
   induction f with
-  | zero => intro m g inner N ts rest _ hp; simp [parseUntilEoc] at hp
+  | zero => intro m e g inner N ts rest _ hp; simp [parseUntilEoc] at hp
   | succ f ih =>
-    intro m g inner N ts rest hf hp hI hI1 hN
+    intro m e g inner N ts rest hf hp hI hI1 hN
     obtain ⟨N0, rfl⟩ : ∃ N0, N = N0 + 1 := ⟨N - 1, by omega⟩
     rw [run_berLoop_succ]
     simp only [parseUntilEoc] at hp
@@ -517,9 +519,12 @@ theorem berLoop_indef : ∀ (f : Nat) (m : Mode) (g : G0) (inner N : Nat) (ts : 
                 simp only [Option.some.injEq, Prod.mk.injEq] at hp
                 obtain ⟨hk, hrest⟩ := hp
                 subst hk; subst hrest
-                have hab : absentF ⟨.indefinite, m⟩ g = some (⟨.done, m⟩, g.adv (k + kl)) := by
+                have hel : C02.eocLen (toM m) (f + 1) g.view = k + kl := by
+                  simp only [C02.eocLen, hri, he, if_true, hrl]
+                have hab : absentF ⟨.indefinite, m, e⟩ g =
+                    some (⟨.done, m, C02.eocLen (toM m) (f + 1) g.view⟩, g.adv (k + kl)) := by
                   unfold absentF
-                  simp [hH, he, hcn]
+                  simp [hH, he, hcn, C10.adv_data_len g (k + kl) hsum, hel]
                 rw [ber_round_absent _ g hf inner hI1 _ _ hab]
                 simp only [List.length_drop, allOSL, if_true]
                 have : g.view.length - (g.view.length - (k + kl)) = k + kl := by omega
@@ -543,12 +548,14 @@ theorem berLoop_indef : ∀ (f : Nat) (m : Mode) (g : G0) (inner N : Nat) (ts : 
             obtain ⟨n2, hn2, hr2⟩ := (suffix_lemma (toM m) f).2 _ _ _ hpe
             have hlen : g.view.length - rest1.length = n1 := by
               rw [hr1, List.length_drop]; omega
-            rw [ber_round_value ⟨.indefinite, m⟩ g hf (by simp) (by simp) f t rest1 hpv inner (hI t (by simp)), hlen]
+            rw [ber_round_value ⟨.indefinite, m, e⟩ g hf (by simp) (by simp) f t rest1 hpv inner (hI t (by simp)), hlen]
             by_cases ha : allOS t = true
             · simp only [ha, if_true, allOSL, Bool.true_and]
               have hvn : (g.adv n1).view = rest1 := by rw [G0.adv_view g n1 hn1, hr1]
-              rw [ih m (g.adv n1) inner N0 ts' rest' rfl (by rw [hvn]; exact hpe)
-                (fun t' h' => hI t' (by simp [h'])) hI1 (by omega), G0.adv_adv, hvn]
+              have hel : C02.eocLen (toM m) (f + 1) g.view = C02.eocLen (toM m) f rest1 := by
+                simp only [C02.eocLen, hri, he', Bool.false_eq_true, if_false, hpv]
+              rw [ih m e (g.adv n1) inner N0 ts' rest' rfl (by rw [hvn]; exact hpe)
+                (fun t' h' => hI t' (by simp [h'])) hI1 (by omega), G0.adv_adv, hvn, hel]
               have e : n1 + (rest1.length - rest'.length) = g.view.length - rest'.length := by
                 rw [hr2, hr1] at *
                 simp only [List.length_drop] at *
@@ -666,7 +673,7 @@ theorem skipLoop_nopanic : ∀ (N : Nat) (stack : C10.Stack) (st : σ) (g : G0) 
 theorem skipOpt_nopanic (st : σ) (N : Nat) (g : G0) (e : Err) (hf : g.frames = [])
     (hd : c.state = .definite → g.limit ≠ none)
     (h : runG0 (skipOpt c filter st N) g = .error e) : e = .content ∨ e = .fuel := by
-  rw [C10.run_skipOpt] at h
+  rw [C10.run_skipOpt_note, C10.noteF_err_iff, C10.run_skipOpt0] at h
   by_cases h1 : c.state = .done
   · simp [h1] at h
   · by_cases h2 : c.state = .definite ∧ g.limit = none
@@ -1133,11 +1140,11 @@ theorem parseAll_none_of_untilEoc (m : M) : ∀ (f : Nat) (v : Bytes) (ts : List
 /-! ## 4. `OctetString::from_content` on a constructed value in BER -/
 
 /-- the `Constructed` of a definite-length constructed value in BER (source `St d (some l)`) -/
-abbrev cD : Cons := ⟨.definite, .ber⟩
+abbrev cD : Cons := ⟨.definite, .ber, 0⟩
 /-- … of an indefinite-length one (any source without open capture) -/
-abbrev cI : Cons := ⟨.indefinite, .ber⟩
+abbrev cI : Cons := ⟨.indefinite, .ber, 0⟩
 /-- … after its end-of-contents octets have been read -/
-abbrev cE : Cons := ⟨.done, .ber⟩
+abbrev cE (e : Nat) : Cons := ⟨.done, .ber, e⟩
 
 /-- the loop budget given by `from_content`'s `fuel`: it covers the headers of every value (the
     budget of one `skip_opt`) and exceeds the number of values (the rounds of the `while`) -/
@@ -1169,22 +1176,23 @@ theorem budget_of_hdrsL (fuel : Nat) (ts : List Tree) (h : hdrsL ts < fuel) : Bu
 
 /-- `from_content` in BER = `capture` around the loop, by `C16.capture_run0` -/
 theorem fromContent_run (fuel : Nat) (st : CState) (d : Bytes) (lo : Option Nat) :
-    runG0 (OS.fromContent fuel (.cons ⟨st, .ber⟩)) (St d lo) =
-      match runG0 (OS.berLoop ⟨st, .ber⟩ fuel fuel) (St d lo) with
+    runG0 (OS.fromContent fuel (.cons ⟨st, .ber, 0⟩)) (St d lo) =
+      match runG0 (OS.berLoop ⟨st, .ber, 0⟩ fuel fuel) (St d lo) with
       | .error e => .error e
       | .ok (c', g') =>
+        let k := d.length - g'.data.length
+        let e := if c'.state = st then 0 else c'.eoc
         match lo with
         | some lim =>
-          if lim < d.length - g'.data.length then .error (.panic "advanced past end of limit")
-          else .ok ((.cons (d.take (d.length - g'.data.length)), .cons ⟨c'.state, .ber⟩),
-                  St g'.data (some (lim - (d.length - g'.data.length))))
-        | none => .ok ((.cons (d.take (d.length - g'.data.length)), .cons ⟨c'.state, .ber⟩), St g'.data none) := by
-  have hfc : OS.fromContent fuel (.cons ⟨st, .ber⟩) =
-      (do let (os, c') ← OS.takeConstructedBer ⟨st, .ber⟩ fuel; pure (os, Content.cons c')) := rfl
+          if lim < k then .error (.panic "advanced past end of limit")
+          else .ok ((.cons (d.take (k - e)), .cons ⟨c'.state, .ber, c'.eoc⟩), St g'.data (some (lim - k)))
+        | none => .ok ((.cons (d.take (k - e)), .cons ⟨c'.state, .ber, c'.eoc⟩), St g'.data none) := by
+  have hfc : OS.fromContent fuel (.cons ⟨st, .ber, 0⟩) =
+      (do let (os, c') ← OS.takeConstructedBer ⟨st, .ber, 0⟩ fuel; pure (os, Content.cons c')) := rfl
   rw [hfc]
   unfold OS.takeConstructedBer
-  simp only [runG0_bind, C16.capture_run0 ⟨st, .ber⟩ _ (fun c => C16.nocap_berLoop fuel fuel c)]
-  cases runG0 (OS.berLoop ⟨st, .ber⟩ fuel fuel) (St d lo) with
+  simp only [runG0_bind, C16.capture_run0 ⟨st, .ber, 0⟩ _ (fun c => C16.nocap_berLoop fuel fuel c)]
+  cases runG0 (OS.berLoop ⟨st, .ber, 0⟩ fuel fuel) (St d lo) with
   | error e => rfl
   | ok r =>
     obtain ⟨c', g'⟩ := r
@@ -1269,8 +1277,8 @@ theorem ber_def_run (fuel : Nat) (d : Bytes) (l : Nat) (f : Nat) (ts : List Tree
     exact checked_of_err _ _ _ _ hfc
 
 theorem specAll_def_inv (m : Mode) (d : Bytes) (l f : Nat) (ts : List Tree) (c' : Cons) (g' : G0)
-    (h : specAll ⟨.definite, m⟩ f (St d (some l)) = some ((ts, c'), g')) :
-    l ≤ d.length ∧ parseAll (toM m) f (d.take l) = some ts ∧ c' = ⟨.definite, m⟩ ∧ g' = St (d.drop l) (some 0) := by
+    (h : specAll ⟨.definite, m, 0⟩ f (St d (some l)) = some ((ts, c'), g')) :
+    l ≤ d.length ∧ parseAll (toM m) f (d.take l) = some ts ∧ c' = ⟨.definite, m, 0⟩ ∧ g' = St (d.drop l) (some 0) := by
   unfold specAll at h
   simp only at h
   by_cases hle : l ≤ d.length
@@ -1289,7 +1297,7 @@ theorem ber_def_fc_inv (fuel : Nat) (d : Bytes) (l : Nat) (r : OS × Content) (g
       r = (.cons (d.take l), .cons cD) ∧ g1 = St (d.drop l) (some 0) := by
   have hrun := fromContent_run fuel .definite d (some l)
   rw [h1] at hrun
-  cases hloop : runG0 (OS.berLoop ⟨.definite, .ber⟩ fuel fuel) (St d (some l)) with
+  cases hloop : runG0 (OS.berLoop ⟨.definite, .ber, 0⟩ fuel fuel) (St d (some l)) with
   | error e => rw [hloop] at hrun; cases hrun
   | ok x =>
     obtain ⟨c', g2⟩ := x
@@ -1347,10 +1355,10 @@ theorem ber_indef_fc (fuel : Nat) (d : Bytes) (lo : Option Nat) (f : Nat) (ts : 
     (hp : parseUntilEoc .ber f (St d lo).view = some (ts, rest)) (hb : Budget fuel ts) :
     runG0 (OS.fromContent fuel (.cons cI)) (St d lo) =
       if allOSL ts = true then
-        .ok ((.cons (d.take ((St d lo).view.length - rest.length)), .cons cE),
+        .ok ((.cons (d.take ((St d lo).view.length - rest.length - C02.eocLen .ber f (St d lo).view)), .cons (cE (C02.eocLen .ber f (St d lo).view))),
           St (d.drop ((St d lo).view.length - rest.length)) (lo.map (· - ((St d lo).view.length - rest.length))))
       else .error .content := by
-  have hloop := berLoop_indef f .ber (St d lo) fuel fuel ts rest rfl hp hb.1 (by have := hb.2; omega) hb.2
+  have hloop := berLoop_indef f .ber 0 (St d lo) fuel fuel ts rest rfl hp hb.1 (by have := hb.2; omega) hb.2
   have hrun := fromContent_run fuel .indefinite d lo
   rw [hloop] at hrun
   have hvd := (St d lo).view_length_le
@@ -1379,14 +1387,14 @@ theorem ber_indef_fc (fuel : Nat) (d : Bytes) (lo : Option Nat) (f : Nat) (ts : 
     values `ts` followed by the end-of-contents octets (and then `rest`), `from_content` followed
     by the exhaustion check succeeds exactly when every value in `ts`, at every depth, is an OCTET
     STRING.  The source is then left behind the end-of-contents octets, the `Constructed` is
-    `done`, and the value holds exactly the octets advanced over — THE END-OF-CONTENTS OCTETS
-    INCLUDED (known finding D12; see `ber_indef_captured`).  A foreign tag anywhere inside is a
+    `done`, and the value holds exactly the octets advanced over — WITHOUT the end-of-contents octets
+    (the repaired defect D12; `C02.eocLen` is their number).  A foreign tag anywhere inside is a
     content error. -/
 theorem ber_indef_run (fuel : Nat) (d : Bytes) (lo : Option Nat) (f : Nat) (ts : List Tree) (rest : Bytes)
     (hp : parseUntilEoc .ber f (St d lo).view = some (ts, rest)) (hb : Budget fuel ts) :
     runG0 (fromContentChecked fuel (.cons cI)) (St d lo) =
       if allOSL ts = true then
-        .ok ((.cons (d.take ((St d lo).view.length - rest.length)), .cons cE),
+        .ok ((.cons (d.take ((St d lo).view.length - rest.length - C02.eocLen .ber f (St d lo).view)), .cons (cE (C02.eocLen .ber f (St d lo).view))),
           St (d.drop ((St d lo).view.length - rest.length)) (lo.map (· - ((St d lo).view.length - rest.length))))
       else .error .content := by
   have hfc := ber_indef_fc fuel d lo f ts rest hp hb
@@ -1397,8 +1405,8 @@ theorem ber_indef_run (fuel : Nat) (d : Bytes) (lo : Option Nat) (f : Nat) (ts :
     exact checked_of_err _ _ _ _ hfc
 
 theorem specAll_indef_inv (m : Mode) (g : G0) (f : Nat) (ts : List Tree) (c' : Cons) (g' : G0)
-    (h : specAll ⟨.indefinite, m⟩ f g = some ((ts, c'), g')) :
-    ∃ rest, parseUntilEoc (toM m) f g.view = some (ts, rest) ∧ c' = ⟨.done, m⟩ ∧
+    (h : specAll ⟨.indefinite, m, 0⟩ f g = some ((ts, c'), g')) :
+    ∃ rest, parseUntilEoc (toM m) f g.view = some (ts, rest) ∧ c' = ⟨.done, m, C02.eocLen (toM m) f g.view⟩ ∧
       g' = g.adv (g.view.length - rest.length) := by
   unfold specAll at h
   simp only at h
@@ -1413,11 +1421,11 @@ theorem specAll_indef_inv (m : Mode) (g : G0) (f : Nat) (ts : List Tree) (c' : C
 theorem ber_indef_fc_inv (fuel : Nat) (d : Bytes) (lo : Option Nat) (r : OS × Content) (g1 : G0)
     (h1 : runG0 (OS.fromContent fuel (.cons cI)) (St d lo) = .ok (r, g1)) :
     ∃ f ts rest, parseUntilEoc .ber f (St d lo).view = some (ts, rest) ∧ allOSL ts = true ∧ Budget fuel ts ∧
-      r = (.cons (d.take ((St d lo).view.length - rest.length)), .cons cE) ∧
+      r = (.cons (d.take ((St d lo).view.length - rest.length - C02.eocLen .ber f (St d lo).view)), .cons (cE (C02.eocLen .ber f (St d lo).view))) ∧
       g1 = St (d.drop ((St d lo).view.length - rest.length)) (lo.map (· - ((St d lo).view.length - rest.length))) := by
   have hrun := fromContent_run fuel .indefinite d lo
   rw [h1] at hrun
-  cases hloop : runG0 (OS.berLoop ⟨.indefinite, .ber⟩ fuel fuel) (St d lo) with
+  cases hloop : runG0 (OS.berLoop ⟨.indefinite, .ber, 0⟩ fuel fuel) (St d lo) with
   | error e => rw [hloop] at hrun; cases hrun
   | ok x =>
     obtain ⟨c', g2⟩ := x
@@ -1433,7 +1441,7 @@ theorem ber_indef_fc_inv (fuel : Nat) (d : Bytes) (lo : Option Nat) (r : OS × C
 theorem ber_indef_accept_inv (fuel : Nat) (d : Bytes) (lo : Option Nat) (os : OS) (ct : Content) (g' : G0)
     (h : runG0 (fromContentChecked fuel (.cons cI)) (St d lo) = .ok ((os, ct), g')) :
     ∃ f ts rest, parseUntilEoc .ber f (St d lo).view = some (ts, rest) ∧ allOSL ts = true ∧ Budget fuel ts ∧
-      os = .cons (d.take ((St d lo).view.length - rest.length)) ∧ ct = .cons cE ∧
+      os = .cons (d.take ((St d lo).view.length - rest.length - C02.eocLen .ber f (St d lo).view)) ∧ ct = .cons (cE (C02.eocLen .ber f (St d lo).view)) ∧
       g' = St (d.drop ((St d lo).view.length - rest.length)) (lo.map (· - ((St d lo).view.length - rest.length))) := by
   obtain ⟨g1, h1⟩ := checked_ok_inv _ _ _ _ h
   obtain ⟨f, ts, rest, hp, hall, hb, _, _⟩ := ber_indef_fc_inv fuel d lo _ g1 h1
@@ -1540,12 +1548,54 @@ theorem ber_accept_views (fuel : Nat) (c : Cons) (d : Bytes) (lo : Option Nat)
       have hw := wf_of_parseAll f _ ts hp ha
       exact ⟨f, ts, d.take l, rfl, hw, ⟨f, ts, hw⟩, ha, Or.inl hp, views_of_wf f _ ts hw⟩
   · obtain ⟨f, ts, rest, hp, ha, hb, rfl, _, _⟩ := ber_indef_accept_inv fuel d lo os ct g' h
-    obtain ⟨_, _, hw⟩ := ber_indef_captured f _ ts rest hp
-    have hw := hw ha
-    have ht : (St d lo).view.take ((St d lo).view.length - rest.length) = d.take ((St d lo).view.length - rest.length) :=
+    obtain ⟨_, hpa⟩ := C11b.untilEoc_values .ber f _ ts rest hp
+    have hw := wf_of_parseAll f _ ts hpa ha
+    have ht : (St d lo).view.take ((St d lo).view.length - rest.length - C02.eocLen .ber f (St d lo).view) =
+        d.take ((St d lo).view.length - rest.length - C02.eocLen .ber f (St d lo).view) :=
       C10.take_view (St d lo) _ (by omega)
     rw [ht] at hw
     exact ⟨f, ts, _, rfl, hw, ⟨f, ts, hw⟩, ha, Or.inr ⟨rest, hp⟩, views_of_wf f _ ts hw⟩
+
+/-- **C16 (BER): every accepted constructed value re-encodes as a well-formed value of the same
+    content.**  Whenever `from_content` + exhaustion check accepts a constructed value (definite
+    parent on a limited source, or indefinite parent), the captured octets parse as a SEQUENCE OF
+    VALUES `ts` (never with a trailing end-of-contents marker), so — by
+    `C16.reencode_ber_wellformed` — writing the value back in BER with the OCTET STRING tag yields
+    one definite-length constructed universal-4 value with exactly the kids `ts`, whose reference
+    content is what the octet view of the value presents. -/
+theorem ber_accept_reencode (fuel : Nat) (c : Cons) (d : Bytes) (lo : Option Nat)
+    (hc : (c = cD ∧ lo ≠ none) ∨ c = cI) (os : OS) (ct : Content) (g' : G0)
+    (h : runG0 (fromContentChecked fuel (.cons c)) (St d lo) = .ok ((os, ct), g'))
+    (hsz : d.length < 2 ^ 32) (rest : Bytes) :
+    ∃ f ts captured out, os = .cons captured ∧ parseAll .ber f captured = some ts ∧
+      Enc.write .ber (.octetString Tag.OCTET_STRING os) = .ok out ∧
+      parseValue .ber (f + 1) (out ++ rest) = some (.cons ⟨0, true, 4⟩ false ts, rest) ∧
+      ∃ x, OS.octets os = .ok x ∧ osContent 4 (f + 1) (.cons ⟨0, true, 4⟩ false ts) = some x := by
+  have key : ∀ (f : Nat) (ts : List Tree) (captured : Bytes), captured.length ≤ d.length →
+      parseAll .ber f captured = some ts → allOSL ts = true →
+      ∃ out, Enc.write .ber (.octetString Tag.OCTET_STRING (.cons captured)) = .ok out ∧
+        parseValue .ber (f + 1) (out ++ rest) = some (.cons ⟨0, true, 4⟩ false ts, rest) ∧
+        ∃ x, OS.octets (.cons captured) = .ok x ∧ osContent 4 (f + 1) (.cons ⟨0, true, 4⟩ false ts) = some x := by
+    intro f ts captured hlen hp ha
+    have hd := ((parse_good .ber f).2.1 captured ts hp).2
+    have hos : osTrees f ts = true := by rw [osTrees_iff_allOSL f ts (by omega)]; exact ha
+    obtain ⟨out, h1, h2, h3⟩ := C16.reencode_ber_wellformed captured (by omega) f ts hp rest
+    exact ⟨out, h1, h2, h3 hos⟩
+  rcases hc with ⟨rfl, hlo⟩ | rfl
+  · cases lo with
+    | none => exact absurd rfl hlo
+    | some l =>
+      obtain ⟨hle, f, ts, hp, ha, hb, rfl, _, _⟩ := ber_def_accept_inv fuel d l os ct g' h
+      obtain ⟨out, h1, h2, h3⟩ := key f ts (d.take l) (by simp [List.length_take]; omega) hp ha
+      exact ⟨f, ts, _, out, rfl, hp, h1, h2, h3⟩
+  · obtain ⟨f, ts, rest', hp, ha, hb, rfl, _, _⟩ := ber_indef_accept_inv fuel d lo os ct g' h
+    obtain ⟨_, hpa⟩ := C11b.untilEoc_values .ber f _ ts rest' hp
+    have ht : (St d lo).view.take ((St d lo).view.length - rest'.length - C02.eocLen .ber f (St d lo).view) =
+        d.take ((St d lo).view.length - rest'.length - C02.eocLen .ber f (St d lo).view) :=
+      C10.take_view (St d lo) _ (by omega)
+    rw [ht] at hpa
+    obtain ⟨out, h1, h2, h3⟩ := key f ts _ (by simp [List.length_take]; omega) hpa ha
+    exact ⟨f, ts, _, out, rfl, hpa, h1, h2, h3⟩
 
 /-! ## 6. rejection: a content error (or the budget), never a panic -/
 
@@ -1598,14 +1648,14 @@ theorem specAll_pos (c : Cons) (f : Nat) (g : G0) (ts : List Tree) (c' : Cons) (
     every fuel, a failure is a content error or the exhausted budget -/
 theorem fromContent_nopanic (fuel : Nat) (st : CState) (d : Bytes) (lo : Option Nat)
     (hc : st = .definite → lo ≠ none) (e : Err)
-    (h : runG0 (OS.fromContent fuel (.cons ⟨st, .ber⟩)) (St d lo) = .error e) : e = .content ∨ e = .fuel := by
+    (h : runG0 (OS.fromContent fuel (.cons ⟨st, .ber, 0⟩)) (St d lo) = .error e) : e = .content ∨ e = .fuel := by
   rw [fromContent_run] at h
-  cases hloop : runG0 (OS.berLoop ⟨st, .ber⟩ fuel fuel) (St d lo) with
+  cases hloop : runG0 (OS.berLoop ⟨st, .ber, 0⟩ fuel fuel) (St d lo) with
   | error e' =>
     rw [hloop] at h
     simp only [Except.error.injEq] at h
     subst h
-    exact berLoop_nopanic fuel fuel ⟨st, .ber⟩ (St d lo) _ rfl hc hloop
+    exact berLoop_nopanic fuel fuel ⟨st, .ber, 0⟩ (St d lo) _ rfl hc hloop
   | ok x =>
     obtain ⟨c', g2⟩ := x
     rw [hloop] at h
@@ -1752,24 +1802,21 @@ def exA : Bytes := [0x04, 0x02, 0x61, 0x62, 0x00, 0x00, 0xff]
 theorem exA_parse : parseUntilEoc .ber 3 (St exA none).view = some ([.prim ⟨0, false, 4⟩ [0x61, 0x62]], [0xff]) := by rfl
 theorem exA_budget : Budget 2 [.prim ⟨0, false, 4⟩ [0x61, 0x62]] := by decide
 theorem exA_run : runG0 (fromContentChecked 2 (.cons cI)) (St exA none) =
-    .ok ((.cons [0x04, 0x02, 0x61, 0x62, 0x00, 0x00], .cons cE), St [0xff] none) :=
+    .ok ((.cons [0x04, 0x02, 0x61, 0x62], .cons (cE 2)), St [0xff] none) :=
   (ber_indef_run 2 exA none 3 _ _ exA_parse exA_budget).trans (by rfl)
-/-- the captured octets include the `00 00` (D12): values-then-end-of-contents, not a sequence of values -/
-example : parseUntilEoc .ber 3 [0x04, 0x02, 0x61, 0x62, 0x00, 0x00] = some ([.prim ⟨0, false, 4⟩ [0x61, 0x62]], []) ∧
-    parseAll .ber 3 [0x04, 0x02, 0x61, 0x62, 0x00, 0x00] = none :=
-  ⟨(ber_indef_captured 3 _ _ _ exA_parse).1, (ber_indef_captured 3 _ _ _ exA_parse).2.1⟩
+/-- the captured octets do NOT include the `00 00` (former defect D12): they are a sequence of values -/
+example : parseAll .ber 3 [0x04, 0x02, 0x61, 0x62] = some [.prim ⟨0, false, 4⟩ [0x61, 0x62]] := by rfl
 /-- … and all views of the accepted value present `61 62` -/
-example : ∃ f ts captured, (OS.cons [0x04, 0x02, 0x61, 0x62, 0x00, 0x00]) = .cons captured ∧
+example : ∃ f ts captured, (OS.cons [0x04, 0x02, 0x61, 0x62]) = .cons captured ∧
     wfTrees f captured = some ts ∧ WfOS captured ∧ allOSL ts = true ∧
     (parseAll .ber f (St exA none).view = some ts ∨ ∃ rest, parseUntilEoc .ber f (St exA none).view = some (ts, rest)) ∧
-    ViewsOK (.cons [0x04, 0x02, 0x61, 0x62, 0x00, 0x00]) f ts :=
+    ViewsOK (.cons [0x04, 0x02, 0x61, 0x62]) f ts :=
   ber_accept_views 2 cI exA none (Or.inr rfl) _ _ _ exA_run
-example : OS.octets (.cons [0x04, 0x02, 0x61, 0x62, 0x00, 0x00]) = .ok [0x61, 0x62] :=
-  (views_of_wf 3 _ _ ((ber_indef_captured 3 _ _ _ exA_parse).2.2 (by rfl))).2.1
+example : OS.octets (.cons [0x04, 0x02, 0x61, 0x62]) = .ok [0x61, 0x62] := by rfl
 /-- the whole value `24 80 04 02 61 62 00 00` through the framework's reader (by evaluation) -/
-example : runG0 (takeValueIf ⟨.unbounded, .ber⟩ Tag.OCTET_STRING (OS.fromContent 2))
+example : runG0 (takeValueIf ⟨.unbounded, .ber, 0⟩ Tag.OCTET_STRING (OS.fromContent 2))
     (St [0x24, 0x80, 0x04, 0x02, 0x61, 0x62, 0x00, 0x00] none) =
-    .ok (((.cons [0x04, 0x02, 0x61, 0x62, 0x00, 0x00] : OS), ⟨.unbounded, .ber⟩), St [] none) := by rfl
+    .ok (((.cons [0x04, 0x02, 0x61, 0x62] : OS), ⟨.unbounded, .ber, 0⟩), St [] none) := by rfl
 
 /-- constructed in constructed (an indefinite and a definite one, an empty segment), as the content
     of a definite-length value of 12 octets, followed by other data -/
@@ -1793,7 +1840,8 @@ example : runG0 (fromContentChecked 2 (.cons cD)) (St exB (some 12)) = .error .f
 def exC_ts : List Tree :=
   [.cons ⟨0, true, 4⟩ true [.cons ⟨0, true, 4⟩ true [.prim ⟨0, false, 4⟩ [0x61]], .prim ⟨0, false, 4⟩ [0x62]]]
 theorem exC_parse : parseUntilEoc .ber 6 (St C16.ex3 none).view = some (exC_ts, []) := by rfl
-example : runG0 (fromContentChecked 6 (.cons cI)) (St C16.ex3 none) = .ok ((.cons C16.ex3, .cons cE), St [] none) :=
+example : runG0 (fromContentChecked 6 (.cons cI)) (St C16.ex3 none) =
+    .ok ((.cons (C16.ex3.take 14), .cons (cE 2)), St [] none) :=
   (ber_indef_run 6 C16.ex3 none 6 _ _ exC_parse (by decide)).trans (by rfl)
 
 /-- a foreign INTEGER at depth 1 inside an otherwise well-formed value: content error with a
@@ -1808,7 +1856,7 @@ example (fuel : Nat) : ∃ e, runG0 (fromContentChecked fuel (.cons cD)) (St exD
   ber_def_reject_foreign fuel exD 10 5 exD_ts exD_parse ⟨(⟨0, false, 2⟩, 1), by decide, by decide⟩
 example : runFilter OS.berFilter () (preorderL exD_ts 0) = none ∧ allOSL exD_ts = false := ⟨by rfl, by rfl⟩
 /-- the same as a whole value through the framework's reader (by evaluation) -/
-example : runG0 (takeValueIf ⟨.unbounded, .ber⟩ Tag.OCTET_STRING (OS.fromContent 5))
+example : runG0 (takeValueIf ⟨.unbounded, .ber, 0⟩ Tag.OCTET_STRING (OS.fromContent 5))
     (St (0x24 :: 0x0a :: exD) none) = .error .content := by rfl
 
 /-- malformed: content shorter than the length says; an inner indefinite value that is never closed;
